@@ -153,6 +153,8 @@ type world struct {
 	clipMin, clipMax int64  // when viewRet is set: only cells inside [clipMin, clipMax] are expected (export)
 	shardID uint64
 	backups int
+	reopenMu sync.Mutex
+	reopens [][2]uint64 // intervals of concurrent shard close+reopen operations (Ret = Inf while in flight)
 	arrived map[int]int // rendezvous id -> clients that reached it
 	rcond   *sync.Cond
 	exited  int // clients that finished their program
@@ -279,6 +281,7 @@ func gen(r *hx.Run) []json.RawMessage {
 	wReopen := r.CfgInt("wreopen", 0)
 	wTyped := r.CfgInt("wtyped", 0)
 	wBackup := r.CfgInt("wbackup", 0)
+	wCReopen := r.CfgInt("wcreopen", 0)
 	wRace := r.CfgInt("wrace", 1)
 	if clients < 2 {
 		wRace = 0
@@ -289,7 +292,9 @@ func gen(r *hx.Run) []json.RawMessage {
 	for i := 0; i < nops; i++ {
 		var p op
 		p.C = o.Choose(clients, "client")
-		switch o.Pick("op", 10, wRead, wDel, wDM, wSnap, wFull, 4, wBulk, wReopen, wTyped, wBackup, wRace) {
+		switch o.Pick("op", 10, wRead, wDel, wDM, wSnap, wFull, 4, wBulk, wReopen, wTyped, wBackup, wRace, wCReopen) {
+		case 12:
+			p.K = "creopen"
 		case 11:
 			// two (or three) clients write the same brand-new field of one measurement at the same time, late
 			// in the history (the field index is no longer empty): the creation of the field and its
@@ -481,6 +486,17 @@ func (w *world) rendezvous(id, q int) {
 	simrt.MuUnlock(&w.mu)
 }
 
+// duringReopen: did the operation [inv, ret] overlap a concurrent close+reopen of the shard?  Such an operation
+// may be refused (engine closed, shard disabled): it then counts as failed (applied or not), never as a violation.
+func (w *world) duringReopen(inv, ret uint64) bool {
+	for _, iv := range w.reopens {
+		if iv[0] <= ret && iv[1] >= inv {
+			return true
+		}
+	}
+	return false
+}
+
 func (w *world) clientDone() {
 	simrt.MuLock(&w.mu, 0)
 	w.exited++
@@ -568,7 +584,9 @@ func (w *world) doOp(p op) {
 				e.Failed = true
 			}
 		}
-		if err != nil {
+		if err != nil && w.duringReopen(inv, ret) {
+			r.Probe("probe_op_refused_during_reopen")
+		} else if err != nil {
 			r.Probe("write_errors")
 			r.Violate("C01:write-error", "write", "WritePoints failed with no fault injected: %v", err)
 		}
@@ -610,7 +628,9 @@ func (w *world) doOp(p op) {
 			}
 		}
 		simrt.RWUnlock(&w.guard[m])
-		if err != nil {
+		if err != nil && w.duringReopen(inv, ret) {
+			r.Probe("probe_op_refused_during_reopen")
+		} else if err != nil {
 			r.Violate("C03:delete-error", "delete", "DeleteSeriesRange failed with no fault injected: %v", err)
 		}
 		r.Probe("deletes")
@@ -644,7 +664,9 @@ func (w *world) doOp(p op) {
 			e.Ret = ret
 			e.Failed = err != nil
 		}
-		if err != nil {
+		if err != nil && w.duringReopen(inv, ret) {
+			r.Probe("probe_op_refused_during_reopen")
+		} else if err != nil {
 			r.Violate("C03:delete-error", "delete-measurement", "DeleteMeasurement failed with no fault injected: %v", err)
 		}
 		r.Probe("measurement_drops")
@@ -677,6 +699,33 @@ func (w *world) doOp(p op) {
 			r.Violate("C02:reopen-error", "reopen", "clean reopen failed: %v", err)
 		}
 		r.Probe("clean_reopen")
+	case "creopen":
+		// close and reopen the SHARD (the series file stays open, as in a Store) while the other clients keep
+		// using it: nothing may race, deadlock or panic; operations overlapping the window may be refused
+		simrt.MuLock(&w.reopenMu, 0) // one close+reopen at a time: two Shard objects never serve one directory
+		old := w.sh
+		w.reopens = append(w.reopens, [2]uint64{w.stamp(), model.Inf})
+		k := len(w.reopens) - 1
+		cerr := old.Close()
+		id := w.shardID
+		if id == 0 {
+			id = 1
+		}
+		nsh := tsdb.NewShard(id, filepath.Join(w.root, "data", "db0", "rp0", fmt.Sprint(id)), filepath.Join(w.root, "wal", "db0", "rp0", fmt.Sprint(id)), w.sfile, w.opt)
+		oerr := nsh.Open(ctx)
+		if oerr == nil {
+			w.sh = nsh
+		}
+		w.reopens[k][1] = w.stamp()
+		simrt.MuUnlock(&w.reopenMu)
+		if cerr != nil {
+			r.Violate("C39:close-error", "concurrent-close", "Shard.Close with other clients active failed: %v", cerr)
+		}
+		if oerr != nil {
+			r.Violate("C39:reopen-error", "concurrent-reopen", "reopening the shard after a close under load failed: %v", oerr)
+		}
+		r.Probe("probe_concurrent_shard_reopen")
+		r.Logf("c%d close+reopen shard [%d,%d] close=%v open=%v", p.C, w.reopens[k][0], w.reopens[k][1], cerr, oerr)
 	}
 	if r.Sim != nil {
 		r.Sim.Progress.Add(1)
@@ -707,7 +756,7 @@ func (w *world) doBackup(p op) {
 		err := w.sh.Backup(&buf, "bk", since)
 		ret := w.stamp()
 		if err != nil {
-			if benignBackupErr(err) {
+			if benignBackupErr(err) || w.duringReopen(inv, ret) {
 				r.Probe("backup_refused_busy")
 				return
 			}
@@ -760,7 +809,7 @@ func (w *world) doBackup(p op) {
 	if p.N == 2 {
 		kindSig = "export"
 	}
-	if err != nil && benignBackupErr(err) {
+	if err != nil && (benignBackupErr(err) || w.duringReopen(inv, ret)) {
 		r.Probe("backup_refused_busy")
 		return
 	}
@@ -981,6 +1030,12 @@ func (w *world) doTyped(p op) {
 		if e, ok := err.(tsdb.PartialWriteError); ok {
 			pwe = e
 			dropped = e.Dropped
+		} else if w.duringReopen(inv, ret) {
+			r.Probe("probe_op_refused_during_reopen")
+			for _, e := range evs {
+				e.Ret, e.Failed = ret, true
+			}
+			return
 		} else {
 			r.Violate("C40:write-error", "typed-write", "WritePoints failed with a non-partial error and no fault injected: %v", err)
 			return
@@ -1176,6 +1231,10 @@ func (w *world) read(s, f int, min, max int64, asc bool, asOf uint64, who string
 	inv := w.stamp()
 	got, err := w.cursorRead(ctx, s, f, min, max, asc)
 	ret := w.stamp()
+	if err != nil && w.duringReopen(inv, ret) {
+		r.Probe("probe_op_refused_during_reopen")
+		return true
+	}
 	if err != nil {
 		r.Violate("C01:read-error", "read", "cursor read failed: %v", err)
 		return false
